@@ -33,9 +33,11 @@ EXT_CLASSES = {
     'zodbpickle.pickle.UnpicklingError', 'zodbpickle.pickle.PicklingError',
     'io.BytesIO', 'threading.Lock', 'threading.RLock', 'threading.Condition',
     'tempfile.TemporaryFile', 'zc.lockfile.LockFile', 'zc.lockfile.LockError',
+    'datetime.datetime',
 }
 EXT_MODULES = {'os', 'os.path', 'struct', 'time', 'errno', 'logging', 'sys', 'threading',
-               'tempfile', 'binascii', 'weakref', 'hashlib', 'gzip', 'shutil', 'stat'}
+               'tempfile', 'binascii', 'weakref', 'hashlib', 'gzip', 'shutil', 'stat', 'datetime',
+               'zope', 'zope.interface', 'warnings'}
 EXT_CONSTS = {}
 
 
@@ -1273,6 +1275,11 @@ def call_prim(ctx, interp, name, args, kwargs, node, fr):
     if h:
         return h(ctx, interp, args, kwargs, node)
     fn = PRIMS.get(name)
+    if fn is None and name.endswith('.providedBy'):
+        # zope.interface declarations: an unconstrained boolean
+        return VBool(z3.Bool(fresh_name('provided')))
+    if fn is None and name in ('zope.interface.alsoProvides', 'zope.interface.directlyProvides'):
+        return NONE
     if fn is None:
         if name.startswith('logging.') or name.split('.')[-1] in ('debug', 'info', 'warning',
                                                                   'error', 'critical',
@@ -1394,6 +1401,7 @@ def p_max(ctx, interp, args, kwargs, node):
         return VInt(z3.If(args[0].t >= args[1].t, args[0].t, args[1].t))
     if len(args) == 2 and all(isinstance(a, VBytes) for a in args):
         c = interp.compare(ctx, ast.GtE(), args[0], args[1], node)
+        c = as_z3_bool(c)
         i = ctx.choose([c, z3.Not(c)], 'max')
         return args[i]
     raise Unsupported('max()', node)
